@@ -131,7 +131,8 @@ fn main() {
         let v = ev["violations"].as_u64().unwrap_or(0) + extra_violations as u64;
         ev["violations"] = v.into();
     }
-    let ev_dir = engine::verif_dir().join("evidence");
+    // sensitivity trials against a changed copy of the library write their evidence elsewhere
+    let ev_dir = std::env::var("VERIF_EVIDENCE_DIR").map(std::path::PathBuf::from).unwrap_or_else(|_| engine::verif_dir().join("evidence"));
     let _ = std::fs::create_dir_all(&ev_dir);
     let ev_path = ev_dir.join(format!("{}.json", prop.id));
     std::fs::write(&ev_path, serde_json::to_string_pretty(&ev).unwrap()).expect("write evidence");
